@@ -185,6 +185,10 @@ func (fc *FnCtx) doCallInner(fr *Frame, st *State, instr ssa.Instruction, c *ssa
 	fc.havocCallees[dname] = true
 	// frame: havoc what the callee may write (syntactic write set)
 	fc.havocSet(st, fc.eng.writeSet(callee))
+	if callee.Blocks == nil {
+		// external function without a body here: it may write through the pointers it receives
+		fc.havocPointees(fr, st, c, args)
+	}
 	return havocRes("call_" + callee.Name())
 }
 
@@ -195,6 +199,13 @@ func (fc *FnCtx) havocPointees(fr *Frame, st *State, c *ssa.CallCommon, args []V
 	for i, a := range c.Args {
 		pt, ok := unalias(a.Type()).Underlying().(*types.Pointer)
 		if !ok {
+			// a struct pointer boxed into an interface (proto.Message etc.) is still a pointer
+			if mi, isMI := a.(*ssa.MakeInterface); isMI {
+				if n, isS := isStructPtr(mi.X.Type()); isS {
+					structInitWrites(n, ws, 0, wFull)
+					forceAll(n, ws, 0)
+				}
+			}
 			continue
 		}
 		if n, ok := isStructVal(pt.Elem()); ok && namedPath(pt.Elem()) != "time.Time" {
@@ -209,6 +220,18 @@ func (fc *FnCtx) havocPointees(fr *Frame, st *State, c *ssa.CallCommon, args []V
 	}
 	if len(ws) > 0 {
 		fc.havocSet(st, ws)
+	}
+}
+
+// forceAll adds the fields of a struct to a write set regardless of the package filter used for
+// allocation writes (decoders fill foreign structs too).
+func forceAll(n *types.Named, ws writeSetT, depth int) {
+	s, ok := n.Underlying().(*types.Struct)
+	if !ok || depth > 2 {
+		return
+	}
+	for i := 0; i < s.NumFields(); i++ {
+		ws.add(structHeapName(n, s.Field(i).Name()), wFull)
 	}
 }
 
@@ -406,6 +429,11 @@ func (fc *FnCtx) applyContract(fr *Frame, st *State, instr ssa.Instruction, spec
 	for _, en := range spec.Ensures {
 		t := fc.evalClauseEnv(st, pre, en, env)
 		fc.assume(st, t)
+	}
+	for _, en := range spec.Assumes {
+		t := fc.evalClauseEnv(st, pre, en, env)
+		fc.assume(st, t)
+		fc.assumptions["ASSUMED postcondition of "+spec.Target+" (not proved): "+en.Src] = true
 	}
 	for _, en := range spec.Defines {
 		b := en.Expr.(*EBinary)
